@@ -21,6 +21,8 @@ RULE = (
     "different range than Q; distinct by content hash"
 )
 PARTIAL = [
+    "the B-spline evaluator of Predict.lean is PROVED equal to the shared model FDAModel/BSpline.lean (C07.predict_basis_eq_bspline); "
+    "what remains sampled about it is only its float evaluation",
     "the fit itself (beta_hat) is taken from the implementation (captured from outside); what it is, is C05's business",
     "float evaluation of the truncated-power B-splines vs the exact value: tolerance 64 eps (1 + p max|domain|/dx) x sum|terms| (cancellation is built into the algorithm)",
     "local-polynomial values are compared with the exact model only where the centred/scaled local problem has cond <= 1e5 (see C06); independence from the query set is checked everywhere",
@@ -683,7 +685,19 @@ def model_lines(case, impl):
                         q1 = [a for a in p1 for _ in p2]
                         q2 = [b for _ in p1 for b in p2]
                     lines.append(f"lp2 {req['kernel']} {rs(req['h'])} {req['degree']} {J(_fr(v) for v in x[:, 0])} {J(_fr(v) for v in x[:, 1])} {J(_fr(v) for v in r['y'])} {J(q1)} {J(q2)}")
+    if case.get("default_bw"):
+        lines.append(_bwcount_line(case))
     return lines
+
+
+def _bwcount_line(case):
+    """Request for the model's `bandwidthCount` (the n of the default bandwidth n^(-1/5)) of this entry point."""
+    what = case["entry"].split(".")[1]
+    if case["entry"].startswith("DenseFunctionalData"):
+        return f"bwcount {'covariance' if what == 'covariance' else 'dense'} {len(case['x'])}"
+    if what == "covariance":
+        return f"bwcount covariance {len(set(t for o in case['obs'] for t in o['t']))}"
+    return "bwcount irregular " + ",".join(str(len(o["t"])) for o in case["obs"])
 
 
 def parse_model(case, outs):
@@ -709,6 +723,17 @@ def compare(case, impl, model):
     outs = list(model["outs"])
     req = _requested(case)
     ds = []
+    if case.get("default_bw"):
+        # the default bandwidth that reached the smoother is n^(-1/5) with the model's n (a function of the data only)
+        cnt = outs.pop()
+        if cnt.startswith(("error", "bad")):
+            ds.append(f"model rejects the bandwidth count request: {cnt}")
+        else:
+            for c in impl["calls"]:
+                for seen in c.get("seen", []):
+                    if "h" in seen and not abs(seen["h"] ** -5 - float(Fraction(cnt))) <= 1e-9 * float(Fraction(cnt)):
+                        ds.append(f"default bandwidth {seen['h']!r} is not n^(-1/5) with the model's n = {cnt} (call {c['name']})")
+                        break
     what = case["entry"].split(".")[1]
     k = 0
     worst = 0.0
@@ -819,6 +844,27 @@ def oracle(case, impl):
                 bad(clause, f"[{case['method']}] value at {loc} is {base[loc]!r} when requested within Q={calls[0][1]}"
                             f"{' x ' + str(calls[0][2]) if calls[0][2] else ''} but {v!r} within '{nm}'={calls[ci][1]}{' x ' + str(calls[ci][2]) if calls[ci][2] else ''}",
                     ["query_range_differs"] if not same_range else ["same_query_range"])
+    # partition of unity + non-negativity of the B-splines: inside the fit domain a P-spline prediction lies between the
+    # smallest and the largest coefficient of the fit (C07.predict_between_min_max; tensor products likewise)
+    for ci, c in enumerate(impl["calls"]):
+        if "err" in c or "fits" not in c or not c["fits"]:
+            continue
+        flat = _flat(case, ci, c["vals"])
+        per = len(flat) // len(c["fits"])
+        for fi, fit in enumerate(c["fits"]):
+            if min(fit["deg"]) < 1 or per * len(c["fits"]) != len(flat):
+                continue
+            b = np.asarray(fit["beta"], dtype=float)
+            if not b.size or not np.all(np.isfinite(b)):
+                continue
+            lo_, hi_ = float(b.min()), float(b.max())
+            slack = 1e-6 * max(1.0, float(np.abs(b).max()))
+            for loc, v in flat[fi * per:(fi + 1) * per]:
+                coords = [float(F(t)) for t in loc[1:]]
+                if len(coords) != len(fit["dom"]) and not (len(coords) == 2 and len(fit["dom"]) == 2):
+                    continue
+                if all(d0 <= t <= d1 for t, (d0, d1) in zip(coords, fit["dom"])) and np.isfinite(v) and not (lo_ - slack <= v <= hi_ + slack):
+                    bad("hull_of_coefficients", f"[PS] value {v!r} at {loc} inside the fit domain {fit['dom']} lies outside the range [{lo_!r}, {hi_!r}] of the fitted coefficients")
     # the smoothing options of the call reach the smoother (non-default values)
     req = _requested(case)
     for c in impl["calls"]:
